@@ -63,6 +63,7 @@ def instances(tier):
     for mode, n, m in edge:
         i = _mk(mode, n, m, "O4", extra=bd, name="edge_m%d_n%d_m%d" % (mode, n, m), timeout=900 if tier == "quick" else 3600, mem_gb=10)
         i.nb = 16
+        i.flags = list(i.flags) + ["--max-field-sensitivity-array-size", "600"]   # reads of the mostly concrete text / pattern arrays stay concrete
         i.bound = "text %d, pattern %d: constant backdrop, first 2 and last 2 symbols of text and pattern symbolic over 13 classes (partially symbolic instance)" % (n, m)
         out.append(i)
     return out
